@@ -149,12 +149,13 @@ Proof.
 Qed.
 
 (** hand-made documents: nil is the zero cursor, an array assigns the fields in order, a later
-    duplicate key wins, an unknown key is outside the model, a truncated integer is invalid *)
+    duplicate key wins, an unknown key is skipped (d.Skip(), modelled since C09's CursorCodec covers
+    Decoder.Skip) and leaves the zero cursor, a truncated integer is invalid *)
 Example cursor_documents :
   mp_decode_tb [192]%N = DCur (0, [])
   /\ mp_decode_tb [146; 100; 161; 98]%N = DCur (100, b_b)
   /\ mp_decode_tb [131; 164;78;97;110;111; 1; 164;78;97;110;111; 100; 162;73;100; 161; 98]%N = DCur (100, b_b)
-  /\ mp_decode_tb [129; 161; 120; 1]%N = DOut
+  /\ mp_decode_tb [129; 161; 120; 1]%N = DCur (0, [])
   /\ mp_decode_tb [129; 164;78;97;110;111; 211; 0; 0]%N = DNil.
 Proof. vm_compute. repeat split. Qed.
 
